@@ -54,6 +54,11 @@ class StopSchedule(BaseException):
     """raised by the fake `wait` when a scripted schedule is used up (the run is left open)"""
 
 
+class Runaway(BaseException):
+    """raised by the fake pool when the loop submits more attempts than any retry budget allows (never on correct code):
+    stops a run that would otherwise not terminate"""
+
+
 class Res:
     """what the stub worker returns: which index it was called with, by which attempt"""
 
@@ -112,8 +117,10 @@ class DoneList(list):
 class Sched:
     """one deterministic pool + schedule; install() patches the simulator module's namespace"""
 
-    def __init__(self, chooser, retry_classes=DEFAULT_RETRY, worker_result=None):
+    def __init__(self, chooser, retry_classes=DEFAULT_RETRY, worker_result=None, attempt_limit=None):
         self.chooser = chooser
+        self.attempt_limit = attempt_limit   # n_jobs * (max_retries + 1): more submissions than that cannot be legitimate
+        self.runaway = False
         self.retry_classes = list(retry_classes)
         self.worker_result = worker_result
         self.log = []              # tokens
@@ -168,6 +175,11 @@ class Sched:
                     raise RuntimeError("cannot schedule new futures after shutdown")
                 if kwargs:
                     sched.problems.append("submit with kwargs")
+                if sched.attempt_limit is not None and len(sched.futs) >= sched.attempt_limit:
+                    sched.runaway = True
+                    sched.problems.append(f"more than {sched.attempt_limit} attempts submitted: the retry budget is not enforced "
+                                          "(the drain loop would not terminate)")
+                    raise Runaway
                 fut = FakeFuture(sched, len(sched.futs), fn, args)
                 sched.futs.append(fut)
                 job = args[0] if args else None
@@ -204,6 +216,10 @@ class Sched:
         if isinstance(fs, dict):
             self.futures_dict = fs
         keys = list(fs)
+        if self.attempt_limit is not None and len(self.wait_args) > 2 * self.attempt_limit + 10:
+            self.runaway = True
+            self.problems.append("wait() called more often than there can be attempts: the drain loop does not terminate")
+            raise Runaway
         self.log.append(f"w:{len(keys)}")
         self.hw_dict = max(self.hw_dict, len(keys))
         if not keys:
@@ -241,7 +257,8 @@ class Sched:
             finally:
                 self.current_attempt = None
         else:
-            classes = self.retry_classes if outcome == "retry" else FATAL_CLASSES
+            fatal = [c for c in FATAL_CLASSES if not issubclass(c, tuple(self.retry_classes))]
+            classes = self.retry_classes if outcome == "retry" else fatal
             cls = classes[self.exc_counter % len(classes)]
             self.exc_counter += 1
             e = cls(f"injected {outcome} failure of attempt {f.aid}")
@@ -375,6 +392,18 @@ class ScriptChooser:
         return opts[0]
 
 
+class UniformChooser:
+    """uniform over the options of the exhaustive enumeration (sampling of scopes too large to enumerate)"""
+
+    def __init__(self, seed, maxbatch):
+        self.rng = random.Random(seed)
+        self.options = batch_options(maxbatch)
+
+    def choose(self, inflight, sched):  # noqa: ARG002
+        opts = self.options(len(inflight))
+        return opts[self.rng.randrange(len(opts))]
+
+
 def batch_options(maxbatch):
     def options(k):
         out = []
@@ -388,8 +417,10 @@ def batch_options(maxbatch):
 
 
 # --------------------------------------------------------------------------- the pure scheduler tie
-def drive_scheduler(n, w, R, chooser, retry_classes=DEFAULT_RETRY, show_progress=False):  # noqa: N803
-    sched = Sched(chooser, retry_classes)
+def drive_scheduler(n, w, R, chooser, retry_classes=DEFAULT_RETRY, show_progress=False, light_init=False):  # noqa: N803
+    """light_init: replace `worker_init` (thread caps via threadpoolctl / importlib, ~5 ms per pool) by a recorder;
+    used only by the exhaustive enumeration, where one pool is created per schedule"""
+    sched = Sched(chooser, retry_classes, attempt_limit=n * (R + 1))
     calls = []
 
     def work(idx):
@@ -397,7 +428,8 @@ def drive_scheduler(n, w, R, chooser, retry_classes=DEFAULT_RETRY, show_progress
         return Res(idx, sched.current_attempt)
 
     yields, end, raised = [], None, None
-    with sched.install():
+    init_patch = Patch(sim, worker_init=lambda payload, n_threads=1: None) if light_init else Patch(sim)  # noqa: ARG005
+    with sched.install(), init_patch:
         gen = sim.run_backend_parallel(worker_fn=work, payload=None, n_jobs=n, max_workers=w, show_progress=show_progress,
                                        desc="verif", max_retries=R, retry_exceptions=tuple(retry_classes))
         try:
@@ -408,6 +440,8 @@ def drive_scheduler(n, w, R, chooser, retry_classes=DEFAULT_RETRY, show_progress
                 sched.log.append(f"y:{i}:{rj}:{ra}")
         except StopSchedule:
             end = "open"
+        except Runaway:
+            end = "runaway"
         except BaseException as e:  # noqa: BLE001
             raised = e
             end = f"raised:{getattr(e, '_job', '?')}:{getattr(e, '_aid', type(e).__name__)}"
@@ -539,7 +573,7 @@ def run_sched_exhaustive(inp):
     while stack and len(out) < limit:
         prefix = stack.pop()
         ch = ScriptChooser(prefix, opts)
-        sched, yields, end, raised, calls = drive_scheduler(n, w, R, ch)
+        sched, yields, end, raised, calls = drive_scheduler(n, w, R, ch, light_init=len(out) >= 5)
         path = sched.batches
         for depth, alts in ch.alternatives:
             for alt in alts:
@@ -554,6 +588,18 @@ def run_sched_exhaustive(inp):
     if stack:
         out.append({"req": None, "impl": None, "oracle": None, "kind": "sched-exhaustive-truncated",
                     "sig": f"trunc:{n}:{w}:{R}:{maxbatch}", "nontrivial": False})
+    return out
+
+
+def run_sched_sample(inp):
+    n, w, R, mb = inp["n"], inp["w"], inp["R"], inp.get("maxbatch", 1)  # noqa: N806
+    rng = random.Random(inp["sub"])
+    out = []
+    for k in range(inp["count"]):
+        sched, yields, end, raised, calls = drive_scheduler(n, w, R, UniformChooser(rng.randrange(1 << 30), mb), light_init=k >= 5)
+        c = sched_case(n, w, R, sched, yields, end, raised, calls, "sched-sample", f":b{mb}")
+        c["input"] = {"kind": "sched-script", "n": n, "w": w, "R": R, "script": [[list(m) for m in b] for b in sched.batches]}
+        out.append(c)
     return out
 
 
@@ -573,7 +619,7 @@ class FrontEnd:
         self.n, self.cpus, self.profile = inp["n"], inp["cpus"], inp["profile"]
         self.w = max(1, self.cpus - 1)
         self.sched = Sched(RandomChooser(inp["sub"], self.profile, self.n) if "script" not in inp
-                           else ScriptChooser(inp["script"]))
+                           else ScriptChooser(inp["script"]), attempt_limit=self.n * 11)
         self.backend_calls = []   # (index, attempt or None)
         self.serial_fail = set(inp.get("serial_fail", []))
 
@@ -684,6 +730,8 @@ def run_front(inp):  # noqa: C901, PLR0912, PLR0915
                 call()
             except StopSchedule:
                 end = "open"
+            except Runaway:
+                end = "runaway"
             except BaseException as e:  # noqa: BLE001
                 raised = e
                 end = f"raised:{getattr(e, '_job', '?')}:{getattr(e, '_aid', type(e).__name__)}"
@@ -824,7 +872,7 @@ def run_tomo(inp):
     n_traj, cpus = inp["n_traj"], inp["cpus"]
     w = max(1, cpus - 1)
     n = 16 * n_traj
-    sched = Sched(RandomChooser(inp["sub"], inp["profile"], n))
+    sched = Sched(RandomChooser(inp["sub"], inp["profile"], n), attempt_limit=n * 11)
     calls = []
 
     def stub_worker(job_idx):
@@ -842,6 +890,8 @@ def run_tomo(inp):
             pt = tomo.run(H, params, timesteps=[0.1], num_trajectories=n_traj, noise_model=make_noise(L))
         except StopSchedule:
             end = "open"
+        except Runaway:
+            end = "runaway"
         except BaseException as e:  # noqa: BLE001
             raised = e
             end = f"raised:{getattr(e, '_job', '?')}:{getattr(e, '_aid', type(e).__name__)}"
@@ -930,7 +980,7 @@ def gen(rng, tier):  # noqa: C901
                     "custom_retry": k % 11 == 0, "progress": k % 7 == 0})
     # exhaustive small scopes
     if tier == "quick":
-        scopes = [(n, w, R, 1) for n in range(0, 4) for w in (1, 2) for R in (0, 1)] + [(2, 1, 1, 2), (2, 2, 1, 2), (3, 2, 0, 2)]
+        scopes = [(n, w, R, 1) for n in range(0, 4) for w in (1, 2) for R in (0, 1, 2)] + [(2, 1, 1, 2), (2, 2, 1, 2), (3, 2, 0, 2)]
     elif tier == "search":
         scopes = [(n, w, R, 1) for n in range(0, 4) for w in (1, 2) for R in (0, 1, 2) if not (n == 3 and R == 2)]
     else:
@@ -938,7 +988,11 @@ def gen(rng, tier):  # noqa: C901
         scopes += [(n, w, R, 2) for n in range(1, 4) for w in (1, 2) for R in (0, 1)] + [(3, 2, 0, 3), (2, 2, 1, 4)]
     for n, w, R, mb in scopes:  # noqa: N806
         out.append({"kind": "sched-exhaustive", "n": n, "w": w, "R": R, "maxbatch": mb,
-                    "limit": 4000 if tier != "thorough" else 60000})
+                    "limit": {"quick": 25000, "search": 4000}.get(tier, 300000)})
+    if tier == "thorough":   # the one scope too large to enumerate (5.2e6 complete schedules): uniform samples on top of the DFS prefix
+        out.append({"kind": "sched-sample", "n": 4, "w": 2, "R": 2, "maxbatch": 1, "count": 20000, "sub": sub()})
+        out.append({"kind": "sched-sample", "n": 4, "w": 2, "R": 2, "maxbatch": 3, "count": 5000, "sub": sub()})
+        out.append({"kind": "sched-sample", "n": 6, "w": 2, "R": 1, "maxbatch": 4, "count": 5000, "sub": sub()})
     # front ends
     fronts = ["strong", "strong-layers", "weak", "analog1", "analog2", "mcwf"]
     n_front = 8 if tier == "quick" else 40
@@ -962,6 +1016,14 @@ def gen(rng, tier):  # noqa: C901
 
 
 def run(inp):
+    res = run_inner(inp)
+    if "corpus_file" in inp:
+        for c in (res if isinstance(res, list) else [res]):
+            c["kind"] = "corpus:" + str(c.get("kind", inp["kind"]))
+    return res
+
+
+def run_inner(inp):
     k = inp["kind"]
     if k == "sched-random":
         return run_sched_random(inp)
@@ -969,6 +1031,8 @@ def run(inp):
         return run_sched_script(inp)
     if k == "sched-exhaustive":
         return run_sched_exhaustive(inp)
+    if k == "sched-sample":
+        return run_sched_sample(inp)
     if k == "front":
         return run_front(inp)
     if k == "same-set":
